@@ -118,6 +118,37 @@ def run(ctx):
     _host_port(ctx)
     _urlsplit(ctx)
     _params(ctx)
+    _history(ctx)
+
+
+def _history(ctx):
+    from ..core.table import history_family
+    rep, world = ctx.report, ctx.world
+    rep.rule('R15.6', 'no state between calls: an address / endpoint / URL '
+             'is answered the same whatever was asked before')
+    funcs = {n: world.func(MOD, n) for n in (
+        'parse_host_port', 'get_ipv6_addr_by_EUI64', 'urlsplit',
+        'escape_ipv6')}
+    e, h, m = 'get_ipv6_addr_by_EUI64', 'parse_host_port', \
+        '00:16:3e:33:44:55'
+    pairs = [
+        ((h, ['[::1]:80'], {}), (h, ['[::1]'], {'default_port': 81})),
+        ((h, ['h:80'], {}), (h, ['h'], {})),
+        ((h, ['h'], {'default_port': 5}), (h, ['h'], {})),
+        ((h, ['h'], {}), (h, ['h'], {'default_port': 5})),
+        ((e, ['2001:db8::', m], {}), (e, ['2001:db8::', m[:-1] + '6'], {})),
+        ((e, ['2001:db8::', m], {}), (e, ['fe80::', m], {})),
+        ((e, ['1.2.3.4', m], {}), (e, ['2001:db8::', m], {})),
+        ((e, ['2001:db8::/64', m], {}), (e, ['2001:db8::/48', m], {})),
+        (('urlsplit', ['http://h/p?q#f'], {}),
+         ('urlsplit', ['http://h/p?q#f'], {'allow_fragments': False})),
+        (('urlsplit', ['//h/p', 'http'], {}), ('urlsplit', ['//h/p'], {})),
+        (('escape_ipv6', ['::1'], {}), ('escape_ipv6', ['1.2.3.4'], {})),
+    ]
+    pairs = [p for p in pairs if p[0][0] in funcs and p[1][0] in funcs]
+    n = history_family(rep, 'R15.6', 'netutils[after an earlier call]',
+                       world, funcs, pairs, setup=_setup())
+    rep.count('call histories decided', n, floor=len(pairs))
 
 
 def _forward(ctx):
